@@ -8,7 +8,7 @@ impl Parseable for FormatSpecial {
             preceded(
                 "\\",
                 alt((
-                    take_while(3.., |c| "01234567".contains(c))
+                    take_while(3..=3, |c| "01234567".contains(c))
                         .map(|oct| u16::from_str_radix(oct, 8).unwrap())
                         .map(FormatSpecial::Ascii),
                     literal("0").value(FormatSpecial::Null),
